@@ -380,7 +380,8 @@ def execute(plan, timeout=300.0):
     events += seg["events"]
     start = seg["next"]
     segs += 1
-  return judge(plan, events, segs)
+  return core.run_in_child(judge, (plan, events, segs), 600.0,
+                           "engineB judge")
 
 
 # ----------------------------------------------------------------------------
